@@ -31,7 +31,7 @@ func VHarnessVerifyProofs() {
 			v.Assume(v.Not(v.SamePriv(keys[i], keys[j])))
 		}
 	}
-	kind := v.Int("case", 0, 7)
+	kind := v.Int("case", 0, 8)
 	var p cashu.Proof
 	expectOK := false
 	switch kind {
@@ -68,6 +68,10 @@ func VHarnessVerifyProofs() {
 		case 6: // secret edited
 			p.Secret = v.Str("mut.secret")
 			v.Assume(p.Secret != g.Secret)
+		case 8: // the parity bit of the compressed C flipped: the negated point (same x coordinate)
+			gC, ok := vhParsePoint(g.C)
+			v.Assume(ok)
+			p.C = hex.EncodeToString(v.NegPub(gC).SerializeCompressed())
 		case 7: // oversize secret (a genuine signature on it)
 			p = env.genuineProof("big")
 			v.Assume(len(p.Secret) > cashu.MAX_SECRET_LENGTH)
@@ -78,7 +82,7 @@ func VHarnessVerifyProofs() {
 		v.Assert((err == nil) == expectOK, "C04 every unspent proof honestly signed by any keyset of this mint (active or inactive) is accepted")
 		v.Reach("genuine")
 	} else {
-		v.Assert(err != nil, fmt.Sprintf("C04 forged or mutated proof is rejected (case %d: 1 arbitrary, 2 amount, 3 keyset id, 4 C of another proof, 5 other C, 6 secret, 7 oversize secret)", kind))
+		v.Assert(err != nil, fmt.Sprintf("C04 forged or mutated proof is rejected (case %d: 1 arbitrary, 2 amount, 3 keyset id, 4 C of another proof, 5 other C, 6 secret, 7 oversize secret, 8 parity bit of C flipped)", kind))
 		v.Reach("mutated")
 	}
 	if err == nil {
